@@ -266,32 +266,50 @@ impl Queryable for Value {
     where
         T: Into<QueryPath>,
     {
-        convert_js_path(&path.into())
-            .ok()
-            .and_then(|p| self.pointer(p.as_str()))
+        let mut current = self;
+        for step in js_path_steps(&path.into()).ok()? {
+            current = match step {
+                PathStep::Name(name) => current.as_object()?.get(&name)?,
+                PathStep::Index(index) => current.as_array()?.get(index)?,
+            };
+        }
+        Some(current)
     }
 
     fn reference_mut<T>(&mut self, path: T) -> Option<&mut Self>
     where
         T: Into<QueryPath>,
     {
-        convert_js_path(&path.into())
-            .ok()
-            .and_then(|p| self.pointer_mut(p.as_str()))
+        let mut current = self;
+        for step in js_path_steps(&path.into()).ok()? {
+            current = match step {
+                PathStep::Name(name) => current.as_object_mut()?.get_mut(&name)?,
+                PathStep::Index(index) => current.as_array_mut()?.get_mut(index)?,
+            };
+        }
+        Some(current)
     }
 }
 
-fn convert_js_path(path: &str) -> Parsed<String> {
+/// One step of a path that addresses a single location (root, field, index only).
+enum PathStep {
+    Name(String),
+    Index(usize),
+}
+
+/// Splits a path (as returned by a query) into the member names and indices it consists of.
+/// Names are taken as the strings they denote: the enclosing quotes are removed and the
+/// escape sequences of RFC 9535 are decoded, so that `$['a/b']`, `$['\'']` or `$['\u0000']`
+/// lead to exactly that member.
+fn js_path_steps(path: &str) -> Parsed<Vec<PathStep>> {
     let JpQuery { segments } = parse_json_path(path)?;
 
-    let mut path = String::new();
+    let mut steps = Vec::with_capacity(segments.len());
     for segment in segments {
         match segment {
-            Segment::Selector(Selector::Name(name)) => {
-                path.push_str(&format!("/{}", name.trim_matches(|c| c == '\'')));
-            }
-            Segment::Selector(Selector::Index(index)) => {
-                path.push_str(&format!("/{}", index));
+            Segment::Selector(Selector::Name(name)) => steps.push(PathStep::Name(unescape_name(&name))),
+            Segment::Selector(Selector::Index(index)) if index >= 0 => {
+                steps.push(PathStep::Index(index as usize))
             }
             s => {
                 return Err(JsonPathError::InvalidJsonPath(format!(
@@ -301,7 +319,75 @@ fn convert_js_path(path: &str) -> Parsed<String> {
             }
         }
     }
-    Ok(path)
+    Ok(steps)
+}
+
+/// The member name a name selector denotes: a shorthand name as it is, a quoted name without
+/// its quotes and with the escape sequences decoded.
+fn unescape_name(name: &str) -> String {
+    let quoted = name.len() >= 2
+        && ((name.starts_with('\'') && name.ends_with('\''))
+            || (name.starts_with('"') && name.ends_with('"')));
+    if !quoted {
+        return name.to_string();
+    }
+    let mut result = String::with_capacity(name.len());
+    let mut chars = name[1..name.len() - 1].chars();
+    let hex4 = |chars: &mut std::str::Chars| -> Option<u32> {
+        let digits: String = chars.take(4).collect();
+        if digits.len() == 4 {
+            u32::from_str_radix(&digits, 16).ok()
+        } else {
+            None
+        }
+    };
+    while let Some(c) = chars.next() {
+        if c != '\\' {
+            result.push(c);
+            continue;
+        }
+        match chars.next() {
+            Some('b') => result.push('\u{0008}'),
+            Some('f') => result.push('\u{000C}'),
+            Some('n') => result.push('\n'),
+            Some('r') => result.push('\r'),
+            Some('t') => result.push('\t'),
+            Some('u') => {
+                let unit = hex4(&mut chars).unwrap_or(0xFFFD);
+                let code = if (0xD800..0xDC00).contains(&unit) {
+                    // a high surrogate is followed by `\u` and the low surrogate
+                    let mut rest = chars.clone();
+                    match (rest.next(), rest.next(), hex4(&mut rest)) {
+                        (Some('\\'), Some('u'), Some(low)) if (0xDC00..0xE000).contains(&low) => {
+                            chars = rest;
+                            0x10000 + ((unit - 0xD800) << 10) + (low - 0xDC00)
+                        }
+                        _ => 0xFFFD,
+                    }
+                } else {
+                    unit
+                };
+                result.push(char::from_u32(code).unwrap_or('\u{FFFD}'));
+            }
+            Some(other) => result.push(other),
+            None => result.push('\\'),
+        }
+    }
+    result
+}
+
+fn convert_js_path(path: &str) -> Parsed<String> {
+    let mut pointer = String::new();
+    for step in js_path_steps(path)? {
+        match step {
+            PathStep::Name(name) => {
+                pointer.push('/');
+                pointer.push_str(&name.replace('~', "~0").replace('/', "~1"));
+            }
+            PathStep::Index(index) => pointer.push_str(&format!("/{}", index)),
+        }
+    }
+    Ok(pointer)
 }
 
 #[cfg(test)]
